@@ -12,6 +12,8 @@ CONSTANTS
  Gates = {FALSE, TRUE}
  DL1 <- DL24
  DL2s <- DLN3
+ W2 <- WB
+ LB2 <- LAB
  W3 <- WT
  Res <- R3
 INVARIANTS Safety
